@@ -43,7 +43,8 @@ def fromLits : List (String × String) := [("S", "Same"), ("A", "All"), ("L", "S
 
 def parseListener (s : String) : Option Listener :=
   match s.splitOn "~" with
-  | [name, host, proto, port, kinds, frm, sel] => do
+  | [name, host, proto0, port, kinds, frm, sel] => do
+    let proto := if proto0 = "e" then "" else proto0
     let port ← port.toNat?
     let allowed : Option Allowed ←
       if kinds = "N" then pure none else do
